@@ -119,9 +119,12 @@ def make_case(tier, key):
     if kind == "feature":
         fi = key[1]
         ranges = dict(second=(-1, len(F) - 1), rest=(0, 1), irv=(3, 13))
+        if tier == "thorough":
+            ranges["third"] = (-1, len(F) - 1)     # triples of features (and all-but-two)
 
         def body(P):
             second = operator.index(P["second"])
+            third = operator.index(P["third"]) if "third" in P else -1
             rest = operator.index(P["rest"])
             irv = operator.index(P["irv"])
             # rest = 0: the case's feature (+ the second one);  rest = 1: every feature except the second one
@@ -129,11 +132,27 @@ def make_case(tier, key):
             flags[F[fi]] = True
             if second >= 0 and second != fi:
                 flags[F[second]] = not rest
+            if third >= 0 and third != fi:
+                flags[F[third]] = not rest
             p = protogen.build(flags, ir_version=irv)
             probs = roundtrip_checks(p)
             return (not probs), dict(problems=probs, features=sorted(k for k, v in flags.items() if v), irv=irv)
 
         name = f"feature[{F[fi]}]"
+    elif kind == "testdata":
+        path = key[1]
+
+        def body(P):
+            import onnx
+            from google.protobuf import text_format
+
+            p = onnx.ModelProto()
+            text_format.Parse(open(path).read(), p)
+            probs = roundtrip_checks(p)
+            return (not probs), dict(problems=probs, source=path)
+
+        ranges = dict(dummy=(0, 0))
+        name = f"testdata[{path.split('/')[-1]}]"
     else:
         src = key[1]
 
@@ -163,6 +182,10 @@ def make_case(tier, key):
 def keys_for(tier):
     keys = [("feature", i) for i in range(len(F))]
     keys += [("family", s) for s in models.MODELS]
+    if tier == "thorough":
+        import glob
+
+        keys += [("testdata", f) for f in sorted(glob.glob("/repo/testdata/e2e_models/*/*.textproto"))]
     return keys
 
 
@@ -177,7 +200,7 @@ def run(chk, tier):
         "feature combination (case feature x symbolic second feature x 'all remaining features on') and IR version 3..13 are symbolic integers",
         "every explored path is re-executed natively with the path's witness and must give the same observation",
     )
-    chk.bounds = dict(features=F, combinations="each feature alone, each ordered pair, each feature with all others, all-but-one; IR versions 3..13", family_sources=list(models.MODELS))
+    chk.bounds = dict(features=F, combinations="each feature alone, each ordered pair, each feature with all others, all-but-one; IR versions 3..13" + ("; triples and all-but-two; the repository's e2e textproto models" if tier == "thorough" else ""), family_sources=list(models.MODELS))
     chk.not_decided += ["sparse tensors and sparse initializers (excluded by the property)", "wire-format level behaviour, textproto/JSON", "map types"]
     import logging
 
